@@ -151,6 +151,15 @@ def run(tier):
             if from_args(o) and len(tw) == 1:
                 seeds[t["d"]["l"]] = {"PRE" if tw[0][1].endswith("take_while") else "POST"}
                 fixed.add(t["d"]["l"])
+    # (a') `argv.split(|v| v == "--").next()` -- the first piece is the pre part
+    for bb, t in body.calls():
+        c = t.get("callee") or {}
+        if c.get("name") == "next":
+            o = body.origin_operand(t["args"][0])
+            sp = [x for x in mir.walk(o) if x[0] == "call" and x[1].split("::")[-1] in ("split", "splitn") and len(x[2]) > 1 and dashdash_closure(x[2][-1])]
+            if from_args(o) and len(sp) == 1 and not mir.contains(o, lambda x: x[0] == "call" and x[1].split("::")[-1] in ("skip", "nth", "last", "rev")):
+                seeds[t["d"]["l"]] = {"PRE"}
+                fixed.add(t["d"]["l"])
     # (b) slice form: idx = X.iter().position(|v| v == "--") [.unwrap_or(..)] ; &X[..idx] is the pre part, &X[idx..] the post part
     pos_seeds = {}
     for bb, t in body.calls():
@@ -181,6 +190,28 @@ def run(tier):
                 elif kind == "RangeFrom" and bound_pos.get("start"):
                     seeds[t["d"]["l"]] = {"POST"}
                     fixed.add(t["d"]["l"])
+    # (b') the slice is cut inside a closure applied to the position: `position(..).map_or(&[][..], |start| &argv[start..])`
+    for bb, t in body.calls():
+        c = t.get("callee") or {}
+        if c.get("name") in ("map", "map_or", "map_or_else", "and_then") and t["args"] and "POS" in taint.operand_taint(body, pos_t, t["args"][0]):
+            clo = body.origin_operand(t["args"][-1])
+            cf = fns.get(clo[1][len("closure:"):]) if clo[0] == "agg" and str(clo[1]).startswith("closure:") else None
+            if cf is None or not any(from_args(x) for x in clo[4]):
+                continue
+            cb = mir.Body(cf)
+            kinds = set()
+            for i2 in sorted(cb.live_blocks()):
+                for st_ in cb.blocks[i2]["s"]:
+                    if st_["k"] == "assign" and st_["r"]["k"] == "agg" and str(st_["r"].get("adt", "")).split("::")[-1] in ("RangeFrom", "RangeTo"):
+                        # the bound is the closure's own argument (the position)
+                        if all(mir.strip(cb.origin_operand(op)) == ("arg", 2) for op in st_["r"]["ops"]):
+                            kinds.add(str(st_["r"]["adt"]).split("::")[-1])
+            if kinds == {"RangeFrom"}:
+                seeds[t["d"]["l"]] = {"POST"}
+                fixed.add(t["d"]["l"])
+            elif kinds == {"RangeTo"}:
+                seeds[t["d"]["l"]] = {"PRE"}
+                fixed.add(t["d"]["l"])
     ck.ob("A-two-argument-vectors", "main", sorted(set(sum((sorted(v) for v in seeds.values()), []))) == ["POST", "PRE"],
           "main does not split env::args() at `--` into a pre part and a post part (take_while/skip_while on `!= \"--\"`, or slices cut at the position of \"--\"): %s" % seeds)
     # the processed header: whatever parse_header returned (label HDR), followed through locals and into helpers
